@@ -109,9 +109,11 @@ class Ctx:
             "violations": len(self.violations),
         }
         dump_json(os.path.join(EVIDENCE_DIR, self.prop + ".json"), ev)
-        for sig, what, path, found in self.violations:
+        for sig, what, path, found in self.violations[:6]:
             print("VIOLATION property=%s replay=%s%s" % (self.prop, path, "" if found else " no-failing-input-found"))
             log("  -> " + what)
+        if len(self.violations) > 6:
+            log("  (+ %d further violations, see evidence and %s)" % (len(self.violations) - 6, REPLAY_DIR))
         return 1 if self.violations else 0
 
 
